@@ -119,11 +119,12 @@ def tent_cases(rng, tier):
         full = tier == "thorough" or (dn, dp) == (1, 1)
         for t in tents:
             for l in lims:
-                if full or rng.random() < 0.12:
+                if full or rng.random() < 0.08:
                     cases.append((t, l + (dn, dp), D, 2 * D, rng.random() < (1.0 if tier == "thorough" else 0.08)))
-    # off the quarter lattice: other denominators, evaluated on the 1/(2D) lattice
-    for _ in range(12000 if tier == "thorough" else 2500):
-        D2 = rng.choice([3, 5, 6, 7, 8, 10, 12, 16])
+    # finer dyadic lattices (dyadic, so that Fraction inputs behave exactly like the floats the
+    # instancer passes: a non-dyadic Fraction compared with its own float rounding trips asserts)
+    for _ in range(12000 if tier == "thorough" else 2000):
+        D2 = rng.choice([8, 16])
         while True:
             t = tuple(sorted(rng.randint(-2 * D2, 2 * D2) for _ in range(3)))
             if rng.random() < 0.3:  # one-sided tents at the range edges
@@ -131,7 +132,7 @@ def tent_cases(rng, tier):
             if well_formed_tent(t[0], t[1], t[2], D2):
                 break
         l = tuple(sorted(rng.randint(-D2, D2) for _ in range(3)))
-        cases.append((t, l + rng.choice(DISTS), D2, 2 * D2 if D2 <= 8 else 8, rng.random() < 0.2))
+        cases.append((t, l + rng.choice(DISTS), D2, 16, rng.random() < 0.2))
     return cases
 
 
@@ -236,7 +237,7 @@ def region_json(support, tags, **kw):
     return out
 
 
-def model_trace(locations, tags, rng, eps=(0, 1), cmp_=False, limit=1 << 16, tol=1e-9, nprobes=6, PD=8,
+def model_trace(locations, tags, rng, eps=(0, 1), cmp_=False, limit=1 << 16, tol=1e-9, nprobes=3, PD=8,
                 submask=None, label=None):
     """Run the real VariationModel on `locations` (list of dicts tag -> Fraction) and record
     everything the judge needs."""
@@ -481,7 +482,15 @@ def lattice_locs(rng, naxes, k, D=4, extra=()):
     return locs
 
 
-def store_ops(store, tags, rng, nlocs=6, src=None, extra_locs=()):
+def fixed(x, scale=1 << 14):
+    """float -> fixed point [round(x * scale), scale, 1]; TLC allows one unit of slack"""
+    v = round(float(x) * scale)
+    if abs(v) >= MAXI:
+        raise TooBig(repr(x))
+    return [v, scale, 1]
+
+
+def store_ops(store, tags, rng, nlocs=6, src=None, extra_locs=(), exact=True):
     """All operations on one real VarStore -> list of traces."""
     from fontTools.varLib import varStore
 
@@ -501,7 +510,8 @@ def store_ops(store, tags, rng, nlocs=6, src=None, extra_locs=()):
     for li, loc in enumerate(locs):
         inst.setLocation({t: float(F(*v)) for t, v in zip(tags, loc)})
         for d, i in sample:
-            vals.append([d, i, li, rat(inst[(d << 16) + i], limit=1 << 20)])
+            v = inst[(d << 16) + i]
+            vals.append([d, i, li, rat(v) if exact else fixed(v)])
     vals.append([0xFFFF, 0xFFFF, 0, rat(inst[0xFFFFFFFF])])
     out.append(dict(base, op="eval", after=before, map=[], need=[], vals=vals))
     if len(need) > 400:
@@ -638,7 +648,7 @@ def font_store_traces(path, rng):
             extra.append([rat(F(ax.PeakCoord)) for ax in reg.VarRegionAxis])
             extra.append([rat(F(ax.PeakCoord) / 2) for ax in reg.VarRegionAxis])
         try:
-            out += store_ops(copy.deepcopy(store), tags, rng, nlocs=5, src="%s:%s" % (common.rel(path), tag), extra_locs=extra)
+            out += store_ops(copy.deepcopy(store), tags, rng, nlocs=5, src="%s:%s" % (common.rel(path), tag), extra_locs=extra, exact=False)
         except TooBig:
             out.append({"k": "skip", "why": "value beyond 31 bits"})
     return out
@@ -765,18 +775,17 @@ def variable_corpus():
     return sorted(set(fonts))
 
 
-def build_tasks(chk, gen_sets):
+def build_tasks(chk):
+    """every task that does not depend on TLC's generated master sets"""
     rng = chk.rng
     tier = chk.tier
     tasks = []
     tc = tent_cases(rng, tier)
     tasks += [("tent", c) for c in chunks(tc, 1500)]
     tasks += [("scalar", c) for c in chunks(scalar_cases(rng, tier), 400)]
-    # master sets: the TLC-generated ones, then seeded samples in 3 and 4 axes
+    # seeded master sets in 3 and 4 axes (the 1- and 2-axis lattices come from TLC), corpus designspaces
     mcases = []
-    for pts, D in gen_sets:
-        mcases.append(("lattice", (pts, D, rng.random() < (1.0 if tier == "thorough" else 0.15), rng.random() < 0.3), rng.getrandbits(48)))
-    for _ in range(4000 if tier == "thorough" else 500):
+    for _ in range(4000 if tier == "thorough" else 400):
         n = rng.choice([3, 3, 4])
         D = rng.choice([2, 2, 4])
         k = rng.randint(2, 7)
@@ -795,16 +804,25 @@ def build_tasks(chk, gen_sets):
         mcases.append(("lattice", (sorted(pts), D, rng.random() < 0.3, rng.random() < 0.4), rng.getrandbits(48)))
     for p in common.corpus_files(".designspace"):
         mcases.append(("designspace", p, rng.getrandbits(48)))
-    tasks += [("model", c) for c in chunks(mcases, 60)]
+    tasks += [("model", c) for c in chunks(mcases, 40)]
     tasks += [("iup", c) for c in chunks(iup_cases(rng, tier), 600)]
-    scases = [("random", None, rng.getrandbits(48)) for _ in range(2500 if tier == "thorough" else 350)]
+    scases = [("random", None, rng.getrandbits(48)) for _ in range(2500 if tier == "thorough" else 300)]
     fonts = variable_corpus()
     scases += [("font", p, rng.getrandbits(48)) for p in fonts]
     tasks += [("store", c) for c in chunks(scases, 12)]
     for p in fonts:
         tasks.append(("gvar", (p, rng.getrandbits(48), 400 if tier == "thorough" else 25)))
-    return tasks, {"tent_cases": len(tc), "model_cases": len(mcases), "variable_corpus_fonts": len(fonts),
+    return tasks, {"tent_cases": len(tc), "seeded_and_corpus_model_cases": len(mcases), "variable_corpus_fonts": len(fonts),
                    "designspaces": len(common.corpus_files(".designspace"))}
+
+
+def gen_model_tasks(chk, gen_sets):
+    rng = chk.rng
+    mcases = []
+    for pts, D in gen_sets:
+        mcases.append(("lattice", (pts, D, rng.random() < (1.0 if chk.tier == "thorough" else 0.1), rng.random() < 0.25),
+                       rng.getrandbits(48)))
+    return [("model", c) for c in chunks(mcases, 60)]
 
 
 def run_models_mc(chk):
@@ -922,14 +940,18 @@ def run(chk):
                 "tolerance; variation store x rewrite), judged by TLC on the function's output; non-trivial = tent with >= 2 "
                 "solutions, model with >= 3 masters, store with data, IUP case with at least one inferred point")
     t0 = time.time()
-    # master sets need the (M) run first (TLC generates them); everything else is independent of it
-    gen = run_models_mc(chk)
-    chk.log("(M) done in %.0fs; %d TLC-generated master sets" % (time.time() - t0, len(gen)))
-    tasks, sizes = build_tasks(chk, gen)
+    tasks, sizes = build_tasks(chk)
     chk.notes.update(sizes)
     ctx = mp.get_context("fork")
-    with ctx.Pool(14) as pool:
-        results = pool.map(_work, tasks, 1)
+    with ctx.Pool(12) as pool:
+        # the real code is driven in worker processes while TLC runs the (M) configurations;
+        # the master sets TLC generates there are replayed afterwards
+        pending = pool.map_async(_work, tasks, 1)
+        gen = run_models_mc(chk)
+        chk.log("(M) done in %.0fs; %d TLC-generated master sets" % (time.time() - t0, len(gen)))
+        results = pending.get()
+        results += pool.map(_work, gen_model_tasks(chk, gen), 1)
+    chk.notes["tlc_generated_master_sets"] = len(gen)
     traces = [t for r in results for t in r]
     chk.log("drove the real code: %d traces in %.0fs" % (len(traces), time.time() - t0))
     judge_and_report(chk, traces)
